@@ -90,8 +90,9 @@ def main():
                 "ported by hand, see the remarks below); <Cxx>-3, -4: second round, written against HEAD 1083010 by authors who were given the titles of\n"
                 "round 1 to do something different; <Cxx>-5, -6: third round (against a7bf7f5, titles of rounds 1-2 given); <Cxx>-7, -8: fourth round (against\n"
                 "a7bf7f5, titles of rounds 1-3 given, asked for other commands, option / configuration / path handling and interactions between commands);\n"
-                "<Cxx>-9, -10: fifth round (against d539c28, titles of rounds 1-4 given, asked for mechanisms none of them used; no new flags or configuration fields).\n"
-                "Regenerate this file with `tools/seeded_summary.py` after `tools/mutant_eval.py <dir with the agents' output>` (`MUT_OFFSET=2|4|6|8` for rounds 2|3|4|5;\n"
+                "<Cxx>-9, -10: fifth round (against d539c28, titles of rounds 1-4 given, asked for mechanisms none of them used; no new flags or configuration fields);\n"
+                "<Cxx>-11, -12: sixth round (against fa1612c, titles of rounds 1-5 given, pointed at the process environment, leftovers of other programs, counts and unusual command order).\n"
+                "Regenerate this file with `tools/seeded_summary.py` after `tools/mutant_eval.py <dir with the agents' output>` (`MUT_OFFSET=2|4|6|8|10` for rounds 2|3|4|5|6;\n"
                 "`MUT_CHECK_ONLY=1` re-runs only the check for changes validated before). A MISSED entry is a change the quick tier does not detect: C15-7 adds a new\n"
                 "configuration field (`copy: true`) whose effect exists only when that field is set — a check cannot know options that do not exist in the tree it\n"
                 "was written for (boolean FLAGS are discovered from the help texts, configuration fields are not).\n\n"
